@@ -1,6 +1,8 @@
 import FeatModel.Model.LA.Csr
 import FeatModel.Model.LA.Bcsr
 import FeatModel.Model.LA.Dense
+import FeatModel.Model.LA.Cscr
+import FeatModel.Model.LA.Banded
 /-
 Meta-matrices: `PowerRowMatrix` / `TupleMatrixRow` (`row`), `PowerColMatrix` / `TupleMatrix` (`col`),
 `PowerDiagMatrix` / `TupleDiagMatrix` (`diag`), `PowerFullMatrix` (a `col` of `row`s) and `SaddlePointMatrix`
@@ -15,6 +17,8 @@ inductive MetaMat (α : Type) where
   | csr (A : Csr α)
   | bcsr (A : Bcsr α)
   | dense (A : Dense α)
+  | cscr (A : Cscr α)
+  | banded (A : Banded α)
   | row (first rest : MetaMat α)        -- [first | rest]
   | col (first rest : MetaMat α)        -- [first ; rest]
   | diag (first rest : MetaMat α)       -- [first 0 ; 0 rest]
@@ -57,6 +61,8 @@ def rows : MetaMat α → Nat
   | csr A => A.rows
   | bcsr A => A.rows * A.bh
   | dense A => A.rows
+  | cscr A => A.rows
+  | banded A => A.rows
   | row f _ => f.rows
   | col f r => f.rows + r.rows
   | diag f r => f.rows + r.rows
@@ -66,6 +72,8 @@ def cols : MetaMat α → Nat
   | csr A => A.cols
   | bcsr A => A.cols * A.bw
   | dense A => A.cols
+  | cscr A => A.cols
+  | banded A => A.cols
   | row f r => f.cols + r.cols
   | col f _ => f.cols
   | diag f r => f.cols + r.cols
@@ -76,16 +84,29 @@ def wf : MetaMat α → Bool
   | csr A => A.wf
   | bcsr A => A.wf && decide (0 < A.bh) && decide (0 < A.bw)
   | dense A => A.wf && decide (0 < A.rows) && decide (0 < A.cols)
+  | cscr A => A.wf
+  | banded A => A.wf && decide (0 < A.rows)
   | row f r => f.wf && r.wf && f.rows == r.rows
   | col f r => f.wf && r.wf && f.cols == r.cols
   | diag f r => f.wf && r.wf
   | saddle a b d => a.wf && b.wf && d.wf && a.rows == b.rows && a.cols == d.cols
+
+/-- no banded leaf: the banded format does not offer the transposed product -/
+def noBanded : MetaMat α → Bool
+  | banded _ => false
+  | row f r => f.noBanded && r.noBanded
+  | col f r => f.noBanded && r.noBanded
+  | diag f r => f.noBanded && r.noBanded
+  | saddle a b d => a.noBanded && b.noBanded && d.noBanded
+  | _ => true
 
 /-- dense meaning: the block matrix of the parts -/
 def entry [Zero α] [Add α] : MetaMat α → Nat → Nat → α
   | csr A, i, j => A.entry i j
   | bcsr A, i, j => A.entry i j
   | dense A, i, j => A.entry i j
+  | cscr A, i, j => A.entry i j
+  | banded A, i, j => A.entry i j
   | row f r, i, j => if j < f.cols then f.entry i j else r.entry i (j - f.cols)
   | col f r, i, j => if i < f.rows then f.entry i j else r.entry (i - f.rows) j
   | diag f r, i, j =>
@@ -112,6 +133,14 @@ def go [Zero α] [One α] [Add α] [Mul α] [Div α] (tiny : α → Bool) : Meta
     match ax with
     | none => A.apply tiny x r tr
     | some al => A.applyAxpy tiny x y r al ali tr
+  | cscr A, tr => fun ax x y r ali =>
+    match ax with
+    | none => A.apply tiny x r tr
+    | some al => A.applyAxpy tiny x y r al ali tr
+  | banded A, tr => fun ax x y r ali =>
+    match ax with
+    | none => A.apply tiny x r tr
+    | some al => A.applyAxpy tiny x y r al ali tr
   -- PowerRowMatrix / TupleMatrixRow
   | row f r, false => chain f.cols r.cols (go tiny f false) (go tiny r false)
   | row f r, true => split f.cols r.cols (go tiny f true) (go tiny r true)
@@ -129,6 +158,118 @@ def go [Zero α] [One α] [Add α] [Mul α] [Div α] (tiny : α → Bool) : Meta
 
 /-- the instance the driver runs -/
 def goQ (M : MetaMat Rat) (tr : Bool) : MetaOp Rat := M.go (tinyRat epsQ) tr
+
+end MetaMat
+end FeatModel.LA
+
+/-!
+### Tuple/Power vectors as trees
+
+`go` above works on the concatenated pod arrays with explicit offsets – this is literally what the overloads with flat
+`DenseVector` operands do (`DenseVector r_first(r, first().rows(), 0), r_rest(r, rest().rows(), first().rows())` …).
+The overloads with `TupleVector` / `PowerVector` operands navigate with `first()` / `rest()` instead; `goS` models them on
+vector trees.  `FeatModel.Lemmas.C01MetaVec` proves that both agree through `flatten`.
+-/
+namespace FeatModel.LA
+
+inductive MetaVec (α : Type) where
+  | leaf (v : Array α)
+  | node (first rest : MetaVec α)
+
+namespace MetaVec
+variable {α : Type}
+def flatten : MetaVec α → Array α
+  | leaf v => v
+  | node a b => a.flatten ++ b.flatten
+end MetaVec
+
+abbrev MetaOpS (α : Type) := Option α → MetaVec α → MetaVec α → MetaVec α → Bool → Option (MetaVec α)
+
+/-- `first().apply(r, x.first(), y, alpha); rest().apply(r, x.rest(), r, alpha);` -/
+def chainS [One α] (F R : MetaOpS α) : MetaOpS α := fun ax x y r ali =>
+  match x with
+  | .node x1 x2 =>
+    match F ax x1 y r ali with
+    | none => none
+    | some r1 => R (some (ax.getD 1)) x2 r1 r1 true
+  | .leaf _ => none
+
+/-- `first().apply(r.first(), x, y.first(), alpha); rest().apply(r.rest(), x, y.rest(), alpha);` -/
+def splitS (F R : MetaOpS α) : MetaOpS α := fun ax x y r ali =>
+  match r, y with
+  | .node r1 r2, .node y1 y2 =>
+    match F ax x y1 r1 ali with
+    | none => none
+    | some r1' =>
+      match R ax x y2 r2 ali with
+      | none => none
+      | some r2' => some (.node r1' r2')
+  | _, _ => none
+
+def onFirstS (F : MetaOpS α) : MetaOpS α := fun ax x y r ali =>
+  match x with
+  | .node x1 _ => F ax x1 y r ali
+  | .leaf _ => none
+
+def onRestS (F : MetaOpS α) : MetaOpS α := fun ax x y r ali =>
+  match x with
+  | .node _ x2 => F ax x2 y r ali
+  | .leaf _ => none
+
+/-- a leaf container called with leaf vectors -/
+def leafS (f : MetaOp α) : MetaOpS α := fun ax x y r ali =>
+  match x, y, r with
+  | .leaf x, .leaf y, .leaf r => (f ax x y r ali).map .leaf
+  | _, _, _ => none
+
+namespace MetaMat
+variable {α : Type}
+
+/-- the members with Tuple/PowerVector operands -/
+def goS [Zero α] [One α] [Add α] [Mul α] [Div α] (tiny : α → Bool) : MetaMat α → Bool → MetaOpS α
+  | csr A, tr => leafS (go tiny (csr A) tr)
+  | bcsr A, tr => leafS (go tiny (bcsr A) tr)
+  | dense A, tr => leafS (go tiny (dense A) tr)
+  | cscr A, tr => leafS (go tiny (cscr A) tr)
+  | banded A, tr => leafS (go tiny (banded A) tr)
+  | row f r, false => chainS (goS tiny f false) (goS tiny r false)
+  | row f r, true => splitS (goS tiny f true) (goS tiny r true)
+  | col f r, false => splitS (goS tiny f false) (goS tiny r false)
+  | col f r, true => chainS (goS tiny f true) (goS tiny r true)
+  | diag f r, false => splitS (onFirstS (goS tiny f false)) (onRestS (goS tiny r false))
+  | diag f r, true => splitS (onFirstS (goS tiny f true)) (onRestS (goS tiny r true))
+  | saddle a b d, false => splitS (chainS (goS tiny a false) (goS tiny b false)) (onFirstS (goS tiny d false))
+  | saddle a b d, true => splitS (chainS (goS tiny a true) (goS tiny d true)) (onFirstS (goS tiny b true))
+
+/-- the vector `v` has the shape of the compatible L-vector (`tr = false`: result side) / R-vector of `M` -/
+def fits : MetaMat α → (left : Bool) → MetaVec α → Bool
+  | row f r, true, v => f.fits true v && r.fits true v
+  | row f r, false, .node a b => f.fits false a && r.fits false b
+  | col f r, true, .node a b => f.fits true a && r.fits true b
+  | col f r, false, v => f.fits false v && r.fits false v
+  | diag f r, s, .node a b => f.fits s a && r.fits s b
+  | saddle a b d, true, .node v w => a.fits true v && d.fits true w && b.fits true v
+  | saddle a b d, false, .node v w => a.fits false v && b.fits false w && d.fits false v
+  | csr A, s, .leaf v => v.size == (if s then A.rows else A.cols)
+  | bcsr A, s, .leaf v => v.size == (if s then A.rows * A.bh else A.cols * A.bw)
+  | dense A, s, .leaf v => v.size == (if s then A.rows else A.cols)
+  | cscr A, s, .leaf v => v.size == (if s then A.rows else A.cols)
+  | banded A, s, .leaf v => v.size == (if s then A.rows else A.cols)
+  | _, _, _ => false
+
+/-- the compatible vector with the entries of the flat array `v` (`create_vector_l/r` + fill) -/
+def unflatten : MetaMat α → (left : Bool) → Array α → MetaVec α
+  | row f _, true, v => f.unflatten true v
+  | row f r, false, v => .node (f.unflatten false (slice v 0 f.cols)) (r.unflatten false (slice v f.cols r.cols))
+  | col f r, true, v => .node (f.unflatten true (slice v 0 f.rows)) (r.unflatten true (slice v f.rows r.rows))
+  | col f _, false, v => f.unflatten false v
+  | diag f r, true, v => .node (f.unflatten true (slice v 0 f.rows)) (r.unflatten true (slice v f.rows r.rows))
+  | diag f r, false, v => .node (f.unflatten false (slice v 0 f.cols)) (r.unflatten false (slice v f.cols r.cols))
+  | saddle a _ d, true, v => .node (a.unflatten true (slice v 0 a.rows)) (d.unflatten true (slice v a.rows d.rows))
+  | saddle a b _, false, v => .node (a.unflatten false (slice v 0 a.cols)) (b.unflatten false (slice v a.cols b.cols))
+  | _, _, v => .leaf v
+
+def goSQ (M : MetaMat Rat) (tr : Bool) : MetaOpS Rat := M.goS (tinyRat epsQ) tr
 
 end MetaMat
 end FeatModel.LA
